@@ -174,7 +174,7 @@ def run(chk, replay=None):
 
     # ---------------------------------------------------------------- code -> spec: random forecasts with simulations
     traces, results, metas = [], [], []
-    n_tr = 40 if quick else 300
+    n_tr = 40 if quick else 1500
     for t in range(n_tr):
         nc = rng.choice([2, 3, 7, 20, 40])
         nb = rng.choice([1, 2, 5, 8])
